@@ -274,6 +274,16 @@ def install(reg):
         raise Unsupported("sorted() of that argument")
     E["sorted"] = b_sorted
 
+    def b_next(p, args, kw):
+        it = args[0]
+        h = p.deref(it)
+        if isinstance(h, HObj) and not isinstance(h.cls, str):
+            nxt = p.repo.lookup_method(h.cls, "__next__")
+            if nxt is not None:
+                return p.call_repo(nxt, [it], {})
+        raise Unsupported("next() of that object")
+    E["next"] = b_next
+
     def b_print(p, args, kw):
         return VNone()
     E["print"] = b_print
